@@ -49,7 +49,7 @@ RECURSIVE SetToSeq(_)
 SetToSeq(S) == IF S = {} THEN <<>> ELSE LET x == CHOOSE y \in S : \A z \in S : y <= z
                                         IN <<x>> \o SetToSeq(S \ {x})
 Wk(m, o) == LET r == Walk(m, o) IN
-            [off |-> o, ok |-> r.ok, why |-> r.why, name |-> r.name, jumps |-> r.jumps,
+            [off |-> o, ok |-> r.ok, why |-> r.why, cls |-> Coarse(r.why), name |-> r.name, jumps |-> r.jumps,
              inside |-> WalkInside(m, r)]
 RECURSIVE Walks(_, _)
 Walks(m, st) == IF st = <<>> THEN <<>> ELSE <<Wk(m, Head(st))>> \o Walks(m, Tail(st))
